@@ -16,6 +16,7 @@ AXIOMS = []            # callables(ex) -> [z3 axioms]
 SCHEMA = {}            # attr or Class.attr -> type string
 GLOBALS = {}           # 'module:NAME' -> type string
 PROPERTY_FUNCS = {}    # property id -> list of contract keys
+ASSUMED_FUNCS = {}     # property id -> contracts assumed, not verified
 
 
 def contract(key, **kw):
@@ -23,7 +24,10 @@ def contract(key, **kw):
     c = Contract(key, **kw)
     REGISTRY.append(c)
     for p in props:
-        PROPERTY_FUNCS.setdefault(p, []).append(key)
+        if c.verify:
+            PROPERTY_FUNCS.setdefault(p, []).append(key)
+        else:
+            ASSUMED_FUNCS.setdefault(p, []).append(key)
     return c
 
 
@@ -53,6 +57,7 @@ def build_world(modules=None):
     SCHEMA.clear()
     GLOBALS.clear()
     PROPERTY_FUNCS.clear()
+    ASSUMED_FUNCS.clear()
     for m in (modules or CONTRACT_MODULES):
         if m in sys.modules:
             importlib.reload(sys.modules[m])
@@ -90,6 +95,7 @@ def build_world(modules=None):
     w.specfuncs.update(SPECFUNCS)
     w.axioms.extend(AXIOMS)
     w.property_funcs = dict(PROPERTY_FUNCS)
+    w.assumed_funcs = dict(ASSUMED_FUNCS)
     from pyvc import regex
     regex.install(w)
     return w
